@@ -499,14 +499,20 @@ impl<'a> ParseBytesInPlace for &'a mut [u8] {
     fn parse_bytes_in_place<T: ?Sized + ParseBytesZC>(
         self,
     ) -> Result<Self::WithParsed<T>, (Self, ParseError)> {
+        // The reference returned by 'parse_bytes_by_ref()' is derived from
+        // a shared reborrow and must not be written through. It only tells
+        // us the metadata; the pointer itself is taken from the exclusive
+        // borrow we own.
+        let ptr = self.as_mut_ptr();
         let parsed = match T::parse_bytes_by_ref(self) {
-            Ok(parsed) => parsed as *const T,
+            Ok(parsed) => parsed.ptr_with_addr(ptr as *const ()),
             Err(err) => return Err((self, err)),
         };
 
-        // SAFETY: By the invariants of 'parse_bytes_by_ref()', '*parsed' has the
-        // same address and layout as '*self'. Thus, it is safe to use it to
-        // reconstitute the reference.
+        // SAFETY: By the invariants of 'parse_bytes_by_ref()', '*parsed' has
+        // the same address and layout as '*self'. By the invariants of
+        // 'ptr_with_addr()', 'parsed' has that address and metadata and the
+        // provenance of 'ptr', which may be written through for ''a'.
         Ok(unsafe { &mut *parsed.cast_mut() })
     }
 }
@@ -518,15 +524,25 @@ impl ParseBytesInPlace for alloc::boxed::Box<[u8]> {
     fn parse_bytes_in_place<T: ?Sized + ParseBytesZC>(
         self,
     ) -> Result<Self::WithParsed<T>, (Self, ParseError)> {
-        let parsed = match T::parse_bytes_by_ref(&self) {
-            Ok(parsed) => parsed as *const T,
-            Err(err) => return Err((self, err)),
+        // As above: the parsed reference only provides the metadata, the
+        // pointer handed to 'Box::from_raw()' is the box's own.
+        let raw: *mut [u8] = alloc::boxed::Box::into_raw(self);
+
+        // SAFETY: 'raw' comes from a 'Box' and is valid for reads.
+        let parsed = match T::parse_bytes_by_ref(unsafe { &*raw }) {
+            Ok(parsed) => parsed.ptr_with_addr(raw as *const ()),
+            Err(err) => {
+                // SAFETY: 'raw' is what 'Box::into_raw()' returned.
+                return Err((
+                    unsafe { alloc::boxed::Box::from_raw(raw) },
+                    err,
+                ));
+            }
         };
 
         // SAFETY: By the invariants of 'parse_bytes_by_ref()', '*parsed' has
-        // the same address and layout as '*self'. Thus, it is safe to use it
+        // the same address and layout as '*raw'. Thus, it is safe to use it
         // to reconstitute the 'Box'.
-        let _ = alloc::boxed::Box::into_raw(self);
         Ok(unsafe { alloc::boxed::Box::from_raw(parsed.cast_mut()) })
     }
 }
